@@ -112,6 +112,30 @@ Fixpoint stock (s : sampler) : bool :=
 (** ParentBased(root) with the default options. *)
 Definition parent_based (root : sampler) : sampler := SParent root SAlways SNever SAlways SNever.
 
+(** ParentBased(root, options...): configureSamplersForParentBased starts from the defaults and
+    applies the options in the order given, each overwriting one delegate. *)
+Inductive pb_option :=
+| ORemoteSampled (s : sampler)       (* WithRemoteParentSampled *)
+| ORemoteNotSampled (s : sampler)    (* WithRemoteParentNotSampled *)
+| OLocalSampled (s : sampler)        (* WithLocalParentSampled *)
+| OLocalNotSampled (s : sampler).    (* WithLocalParentNotSampled *)
+
+Record pb_config := { c_rs : sampler; c_rns : sampler; c_ls : sampler; c_lns : sampler }.
+Definition default_config : pb_config := {| c_rs := SAlways; c_rns := SNever; c_ls := SAlways; c_lns := SNever |}.
+
+Definition apply_option (c : pb_config) (o : pb_option) : pb_config :=
+  match o with
+  | ORemoteSampled s => {| c_rs := s; c_rns := c_rns c; c_ls := c_ls c; c_lns := c_lns c |}
+  | ORemoteNotSampled s => {| c_rs := c_rs c; c_rns := s; c_ls := c_ls c; c_lns := c_lns c |}
+  | OLocalSampled s => {| c_rs := c_rs c; c_rns := c_rns c; c_ls := s; c_lns := c_lns c |}
+  | OLocalNotSampled s => {| c_rs := c_rs c; c_rns := c_rns c; c_ls := c_ls c; c_lns := s |}
+  end.
+
+Definition configure (opts : list pb_option) : pb_config := fold_left apply_option opts default_config.
+
+Definition parent_based_with (root : sampler) (opts : list pb_option) : sampler :=
+  let c := configure opts in SParent root (c_rs c) (c_rns c) (c_ls c) (c_lns c).
+
 (** *** newSpan.  [g] is what the ID generator returns for this call: NewIDs gives
     both, NewSpanID only the span id (the first component is then ignored). *)
 Record span := { sc : spanctx; recording : bool; asked_ids : bool; sres : sresult }.
@@ -216,6 +240,10 @@ Definition sampler_from_env (name : N) (arg : option (option N)) : option sample
   | 5 => let '(s, e) := env_ratio arg in (Some (parent_based s), e)
   | _ => (None, true)
   end.
+
+(** whether samplerFromEnv reports an error (handed to otel.Handle) *)
+Definition env_error (raw : option bytes) (arg : option (option N)) : bool :=
+  match raw with None => false | Some v => snd (sampler_from_env (env_name_index v) arg) end.
 
 (** The provider's sampler when none is given as an option: OTEL_TRACES_SAMPLER
     (None = unset), falling back to ParentBased(AlwaysSample()). *)
